@@ -199,7 +199,7 @@ theorem elabFile_eTop (env : Env) (ts : List STop) (s : PState) :
   | error e => rfl
   | ok q => simp only [peEx_ok, finish_pe]
 
-/-- `eTop` is idempotent … -/
+/-- erasing the positions of an error twice is erasing them once -/
 theorem pePFail_idem (e : PFail) : pePFail (pePFail e) = pePFail e := by cases e <;> rfl
 
 /-- **Files of the same shape elaborate to the same program up to token positions** (same statements, ids,
